@@ -41,7 +41,10 @@ def run(cx):
     cx.rule("C08.R5", "type mapping table: bool/i64/f64/String/serde_json::Value, Vec<..>, StringHashMap<..>, StringHashSet for [string](), Option<..>; no wildcard arm on the IDL type enums; every composite arm recurses into its element type and every inline struct/enum arm emits the type it names")
     cx.rule("C08.R6", "bad parameters are answered with InvalidParameter: in the dispatch template (and in every generated instance) a failed from_value replies invalid_parameter and returns Err, missing parameters reply invalid_parameter(\"parameters\")")
     cx.rule("C08.R7", "the client always sends `parameters`: MethodCall::send serialises the argument struct into Some(..) unconditionally (the generated server requires the member for every method with inputs)")
+    cx.rule("C08.R8", "string sets travel as objects of empty objects: StringHashSet serialises as a map from each element to an empty JSON object and deserialises from a map, inserting every key (shared with C17.R3)")
     ast = cx.ast
+    from .C17 import r3 as set_shape
+    set_shape(cx, rule="C08.R8")
     r1(cx, ast); r2(cx, ast); r3(cx, ast); r4(cx, ast); r5(cx, ast); r6(cx, ast); r7(cx)
 
 
